@@ -265,6 +265,13 @@ class World(object):
             return os.path.join(self.rpath(r), '.Trash-%d' % self.conc.uid)
         return os.path.join(self.rpath(r), 'ct')
 
+    def tpath_real(self, t):
+        """where the trash directory really lives ($topdir/.Trash may be a symlink)"""
+        p = self.tpath(t)
+        if tkind(t) == 't1' and self.cfg['top'].get(treg(t), 'absent').startswith('link'):
+            return os.path.join(self.rpath(treg(t)), '.realtrash', str(self.conc.uid))
+        return p
+
     def tbase(self, t):
         """directory that relative Path= values are relative to (None: absolute paths are written)"""
         k = tkind(t)
@@ -491,14 +498,17 @@ class World(object):
         return self
 
     JUNK_NOPATH = [b'', b'[Trash Info]\n', b'[Trash Info]\nPath', b'\x00\x01\x02\xff\xfe binary \x80',
-                   b'[Trash Info]\nDeletionDate=2001-01-01T00:00:00\n', b'Pat=/x\n', b'[Trash Info]\nXPath=/a/b\n']
+                   b'[Trash Info]\nDeletionDate=not-a-date\n', b'Pat=/x\n', b'[Trash Info]\nXPath=/a/b\n']
 
     def write_junk(self, tp, j):
         rnd = random.Random('junk|%s|%s' % (self.conc.variant_seed, j['id']))
         if j['kind'] == 'nopath':
             s = b'junk-%d' % j['id']
-            with open(tp + b'/info/' + s + b'.trashinfo', 'wb') as f:
-                f.write(rnd.choice(self.JUNK_NOPATH))
+            if rnd.random() < 0.2:
+                os.mkdir(tp + b'/info/' + s + b'.trashinfo')      # an info entry that cannot be read as a file
+            else:
+                with open(tp + b'/info/' + s + b'.trashinfo', 'wb') as f:
+                    f.write(rnd.choice(self.JUNK_NOPATH))
             self.slots[(j['t'], s)] = ('junk', j['id'])
         elif j['kind'] == 'notinfo':
             s = b'junk-%d.txt' % j['id']
@@ -556,7 +566,7 @@ class World(object):
         tex, items, orph, strays, junk = [], [], [], [], []
         slots = {}
         for t in tdir_ids():
-            tp = os.fsencode(self.tpath(t))
+            tp = os.fsencode(self.tpath_real(t))
             rel = rel_of(tp)
             if rel not in snap:
                 continue
@@ -691,7 +701,7 @@ class World(object):
         if check_outside and self.baseline is not None:
             allowed_new = set()
             for t in tdir_ids():
-                p = rel_of(os.fsencode(self.tpath(t)))
+                p = rel_of(os.fsencode(self.tpath_real(t)))
                 while b'/' in p:
                     p = p.rsplit(b'/', 1)[0]
                     allowed_new.add(p)
@@ -737,7 +747,7 @@ class World(object):
                     if relb == lp or relb.startswith(lp + b'/'):
                         return 'src:%s/%s/%s' % (r, d, n)
         for t in tdir_ids():
-            tp = os.fsencode(self.tpath(t))[len(rootb) + 1:]
+            tp = os.fsencode(self.tpath_real(t))[len(rootb) + 1:]
             if relb == tp or relb.startswith(tp + b'/'):
                 return 'trash'
             p = tp
@@ -768,7 +778,7 @@ class World(object):
                     if k == lp or k.startswith(lp + b'/'):
                         return True
         for t in tdir_ids():
-            tp = os.fsencode(self.tpath(t))[len(rootb) + 1:]
+            tp = os.fsencode(self.tpath_real(t))[len(rootb) + 1:]
             if k.startswith(tp + b'/files/') or k.startswith(tp + b'/info/'):
                 return True
         return False
